@@ -98,7 +98,7 @@ func TestEngineVauth(t *testing.T) {
 			}
 			ai := r.Intn(len(accounts))
 			if r.Chance(1, 3) && done > 10 {
-				ai = r.Intn(1 + done/4) % len(accounts) // revisit early accounts: conflicts
+				ai = r.Intn(1+done/4) % len(accounts) // revisit early accounts: conflicts
 			}
 			if usedS[si] || usedA[ai] {
 				continue
@@ -148,7 +148,11 @@ func TestEngineVauth(t *testing.T) {
 				g2, _ := crypto.Sign(msgHash, k2)
 				sigStr = "0x" + hex.EncodeToString(g2)
 			}
-			msg := &vauthtypes.MsgSubmitProofExternalOwnedAccount{Submitter: subAddr.String(), Account: accAddr.String(), Signature: sigStr}
+			accStr := accAddr.String()
+			if r.Chance(1, 5) { // the all-upper-case notation of the same bech32 address
+				accStr = strings.ToUpper(accStr)
+			}
+			msg := &vauthtypes.MsgSubmitProofExternalOwnedAccount{Submitter: subAddr.String(), Account: accStr, Signature: sigStr}
 			tx, err := c.s.PrepareCosmosTx(cctx, submitter, itutil.CosmosTxArgs{Gas: gas, GasPrice: &gasPrice, Msgs: []sdk.Msg{msg}})
 			require.NoError(t, err)
 			bz, err := txCfg.TxEncoder()(tx)
